@@ -420,7 +420,7 @@ def lift(x):
             if xf != xf or xf in (float("inf"), float("-inf")):
                 raise Unmodelled("non-finite literal in real mode")
             from fractions import Fraction
-            fr = Fraction(repr(xf))
+            fr = Fraction(xf)       # the exact binary64 value (not its shortest decimal spelling)
             return z3.RealVal(str(fr))
         if xf == xf and xf not in (float("inf"), float("-inf")) and xf == int(xf) and abs(xf) < 2**53:
             # integral floats are integers in the integer model (2/1 == 2.0 == 2)
